@@ -12,12 +12,14 @@ Obs == [stored |-> stored, orphans |-> Orphans(prevOrph), best |-> best,
         status |-> [b \in stored |-> status[b]],
         links |-> links,
         posted |-> posted,
+        devs |-> devs,
         ticks |-> Len(ticks)]
 IsCall(op) == op \in {"deliver", "vote", "tick"}
 GInit == Init /\ hist = <<>>
 GNext == /\ Next
          /\ hist' = IF last'.op = "endmint" THEN hist ELSE Append(hist, last')
 (* state constraint (always TRUE): evaluated once per generated successor, i.e. per transition *)
-Export == IsCall(last.op) => PrintT("EXPORT " \o ToJson([calls |-> hist, obs |-> Obs]))
+CONSTANT ExportAt   \* 0: every transition; k > 0: only states with k completed calls (ends of random walks)
+Export == (IsCall(last.op) /\ (ExportAt = 0 \/ (ncalls = ExportAt /\ ticks = <<>>))) => PrintT("EXPORT " \o ToJson([calls |-> hist, obs |-> Obs]))
 GView == View
 =============================================================================
